@@ -230,11 +230,22 @@ impl Response {
                 body: content_buf,
             })
         } else {
+            // With neither a length nor chunked coding, the body of a response that may have one extends until
+            //   the server closes the connection (RFC 9112 section 6.3)
+            let code: u16 = status.into();
+            let mut body: Vec<u8> = Vec::new();
+
+            if !(code < 200 || code == 204 || code == 304) {
+                reader
+                    .read_to_end(&mut body)
+                    .map_err(|_| ResponseError::Stream)?;
+            }
+
             Ok(Self {
                 version,
                 status_code: status,
                 headers,
-                body: Vec::new(),
+                body,
             })
         }
     }
